@@ -118,6 +118,12 @@ def formatChar (f : FormatSpec) (ch : Int) : Outcome (List Event) :=
     | some bs => .ok [.append bs]
     | none => .ok [.append badcharSubstituteUtf8]
 
+/-- `_ST_PRIVATE::char_code(value)` in front of `format_char` for the eight integer types: the
+    0..10FFFF range is tested on the full-width value (`static_cast<unsigned long long>`), anything
+    else becomes −1, which `write_utf8` rejects (repair of defect 17: the pinned code narrowed with
+    `static_cast<int>` first, so 0x100000041 printed "A") -/
+def charCode (value : Int) : Int := if wrap64 value > 0x10FFFF then -1 else value
+
 /-- `ST::format_string(format, output, text, size, default_alignment = align_left)` -/
 def formatString (f : FormatSpec) (text : List Nat) : List Event :=
   let pad := padOf f
@@ -162,10 +168,9 @@ def formatType (a : Arg) (f : FormatSpec) : Outcome (List Event) :=
         (if f.minimumLength ≠ 0 ∨ f.pad ≠ 0 then .assertFail charPaddingMsg else .ok [.appendChar v 1])
       else formatNumericU f v
   | .sint _ v =>
-      -- `static_cast<int>(value)` in front of `format_char` (narrows 64-bit values before the range test)
-      if f.digitClass = .chr then formatChar f (toI32 (wrap64 v)) else formatNumericS f v
+      if f.digitClass = .chr then formatChar f (charCode v) else formatNumericS f v
   | .uint _ v =>
-      if f.digitClass = .chr then formatChar f (toI32 v) else formatNumericU f v
+      if f.digitClass = .chr then formatChar f (charCode v) else formatNumericU f v
   | .bool b => .ok (formatString f (if b then [116, 114, 117, 101] else [102, 97, 108, 115, 101]))
   | .str bs => .ok (formatString f bs)
   | .nullStr => .ok []
